@@ -94,7 +94,14 @@ def two_bloc_params(tier):
                             "cohesion": {"X": {"X": c, "Y": round(1 - c, 10)}, "Y": {"Y": 0.6, "X": 0.4}},
                             "props": {"X": pr[0], "Y": pr[1]},
                         })
-    return out
+    # the same mappings written with the interval keys in the opposite order to the slate lists (representation must not matter)
+    extra = []
+    for k, q in enumerate(out):
+        if len(q["slates"]["X"]) == 2 and q["supports"]["X"]["X"]["x1"] != q["supports"]["X"]["X"]["x2"] and (tier != "quick" or k % 2 == 0):
+            r = dict(q)
+            r["reverse_keys"] = True
+            extra.append(r)
+    return out + extra
 
 
 def one_bloc_params(tier):
@@ -110,6 +117,8 @@ def one_bloc_params(tier):
 def mk_intervals(p):
     from votekit.pref_interval import PreferenceInterval as PI
 
+    if p.get("reverse_keys"):
+        return {b: {s: PI(dict(reversed(list(d.items())))) for s, d in row.items()} for b, row in p["supports"].items()}
     return {b: {s: PI(dict(d)) for s, d in row.items()} for b, row in p["supports"].items()}
 
 
